@@ -16,6 +16,8 @@ def run(ctx: Ctx):
     cases = []
     for k in range(n):
         c = trk.random_case(ctx.seed * 100000 + 50000 + k, vertical=(k % 5 != 0), diffusion=(k % 4 == 0), nsteps=4, fast=False)
+        if k % 6 == 1:
+            c["grid"]["hc"] = 10.0     # critical depth above the depth of the shallowest cells (8 m)
         cases.append(c)
     got = pmap(trk.run_tracker, cases)
     want = driver([trk.model_request(c) for c in cases])
@@ -26,7 +28,7 @@ def run(ctx: Ctx):
         ctx.count("vertdiff:" + str("Dz" in c)); ctx.count("vertadv:" + str(c.get("vertadv", False)))
         # the property on the implementation's output
         i0, i1, j0, j1 = g["limits"]
-        H = np.array(g["H"])
+        H = np.array(c["grid"]["h"])[j0:j1, i0:i1]      # the bathymetry of the file, not what the grid object holds now
         prev = dict(X=[p[0] for p in c["particles"]], Y=[p[1] for p in c["particles"]], Z=[p[2] for p in c["particles"]])
         bad = []
         npart = len(c["particles"])
